@@ -5,7 +5,8 @@
      ranges; see the definition for what it excludes) the model of asn_check_constraints
      accepts a value if and only if every component at every nesting depth satisfies its
      constraints ([satisfies]), for values the C types can hold ([repr]);
-   - the full statement is false of the code: witnesses outside [safe] (known findings);
+   - the full statement is false of the code: witnesses outside [safe] (the open known findings: SIZE of an
+     OF definition, EXCEPT, values beyond 64 bits in a half-open range);
    - the checker is a structural function of type and value (no fuel): it terminates;
    - for every vsnprintf return value and every buffer size >= 1, _asn_i_ctfailcb leaves
      errlen <= size - 1 and a NUL at errbuf[errlen], inside the buffer. *)
@@ -14,56 +15,69 @@ From A1 Require Import Rt.Types Fix.Crange Rt.Constraints Rt.ConstraintsProofs.
 Import ListNotations.
 Local Open Scope Z_scope.
 
-Theorem C08_check_exact_partial : forall t v, safe t false = true -> repr t v = true ->
-  (check t v = ROk <-> satisfies t v = true).
+(* w: the module was compiled with -fwide-types *)
+Theorem C08_check_exact_partial : forall w t v, safe w t false = true -> repr w t v = true ->
+  (check w t v = ROk <-> satisfies t v = true).
 Proof. exact check_exact_partial. Qed.
 Print Assumptions C08_check_exact_partial.
 
 (* the same at every slot (member / alternative / element / behind a reference) *)
-Theorem C08_check_exact_at_every_depth_partial : forall t slot v, safe t slot = true -> repr t v = true ->
-  (chk t slot v = ROk <-> satisfies t v = true).
+Theorem C08_check_exact_at_every_depth_partial : forall w t slot v, safe w t slot = true -> repr w t v = true ->
+  (chk w t slot v = ROk <-> satisfies t v = true).
 Proof. exact chk_exact. Qed.
 Print Assumptions C08_check_exact_at_every_depth_partial.
 
-Theorem C08_check_exact_refuted : exists t v, repr t v = true /\ check_ok t v <> satisfies t v.
+Theorem C08_check_exact_refuted : exists t v, repr false t v = true /\ check_ok false t v <> satisfies t v.
 Proof. exact check_exact_refuted. Qed.
 Print Assumptions C08_check_exact_refuted.
 
-Theorem C08_refuted_sequence_early_return : exists t v,
-  repr t v = true /\ check t v = ROk /\ satisfies t v = false.
-Proof. exact refuted_sequence_early_return. Qed.
-Print Assumptions C08_refuted_sequence_early_return.
-
 Theorem C08_refuted_of_size_unchecked : exists t v,
-  repr t v = true /\ check t v = ROk /\ satisfies t v = false.
+  repr false t v = true /\ check false t v = ROk /\ satisfies t v = false.
 Proof. exact refuted_of_size_unchecked. Qed.
 Print Assumptions C08_refuted_of_size_unchecked.
 
 Theorem C08_refuted_except_ignored : exists t v,
-  repr t v = true /\ check t v = ROk /\ satisfies t v = false.
+  repr false t v = true /\ check false t v = ROk /\ satisfies t v = false.
 Proof. exact refuted_except_ignored. Qed.
 Print Assumptions C08_refuted_except_ignored.
 
-Theorem C08_refuted_min_max_union : exists t v,
-  repr t v = true /\ check t v = ROk /\ satisfies t v = false.
-Proof. exact refuted_min_max_union. Qed.
-Print Assumptions C08_refuted_min_max_union.
-
-Theorem C08_refuted_ulong_shortcut : exists t v,
-  repr t v = true /\ check t v = ROk /\ satisfies t v = false.
-Proof. exact refuted_ulong_shortcut. Qed.
-Print Assumptions C08_refuted_ulong_shortcut.
-
 Theorem C08_refuted_wide_open_range : exists t v,
-  repr t v = true /\ check t v = RFail WTooLarge /\ satisfies t v = true.
+  repr false t v = true /\ check false t v = RFail WTooLarge /\ satisfies t v = true.
 Proof. exact refuted_wide_open_range. Qed.
 Print Assumptions C08_refuted_wide_open_range.
 
 (* the generated leaf checkers alone *)
-Theorem C08_integer_checker_exact_partial : forall ps exc z, int_safe ps exc = true -> int_repr ps z = true ->
-  (int_check ps z = ROk <-> sat_int ps exc z = true).
+Theorem C08_integer_checker_exact_partial : forall w ps exc z, int_safe w ps exc = true -> int_repr w ps z = true ->
+  (int_check w ps z = ROk <-> sat_int ps exc z = true).
 Proof. exact int_check_exact. Qed.
 Print Assumptions C08_integer_checker_exact_partial.
+
+(* ... and for every value that can be read out of its INTEGER_t, whatever the bounds *)
+Theorem C08_integer_checker_exact_readable_partial : forall w ps exc z, int_safe_core w ps exc = true -> int_repr w ps z = true ->
+  (int_wide_ok w ps = true \/ int_readable w ps z = true) ->
+  (int_check w ps z = ROk <-> sat_int ps exc z = true).
+Proof. exact int_check_exact_gen. Qed.
+Print Assumptions C08_integer_checker_exact_readable_partial.
+
+(* half-open ranges (MIN..b), (a..MAX) with ANY finite bound, with and without -fwide-types:
+   no side condition on the type at all *)
+Theorem C08_half_open_range_exact : forall w p z, half_open p = true ->
+  int_repr w [p] z = true -> int_readable w [p] z = true ->
+  (int_check w [p] z = ROk <-> in_pair z p = true).
+Proof. exact half_open_exact. Qed.
+Print Assumptions C08_half_open_range_exact.
+
+(* the decision order of emit_range_comparison_code: a half-open range is never emitted as the
+   single-value test `v == bound` nor as a two-sided test *)
+Theorem C08_half_open_range_text : forall ns p, half_open p = true ->
+  match emit1 ns None p with
+  | Some (CEq _) | Some (CBetween _ _) => False
+  | Some (CLe v) => is_min (fst p) = true /\ v = edge_val (snd p)
+  | Some (CGe v) => is_max (snd p) = true /\ v = edge_val (fst p)
+  | None => is_max (snd p) = true /\ exists s, ns = Some s /\ edge_val (fst p) <= s
+  end.
+Proof. exact half_open_text. Qed.
+Print Assumptions C08_half_open_range_text.
 
 Theorem C08_size_checker_exact_partial : forall sz n, size_safe sz = true -> 0 <= n ->
   (size_check sz n = ROk <-> sat_size sz n = true).
@@ -79,7 +93,7 @@ Theorem C08_spec_is_in_scon : forall s n, scon_ext s = false -> 0 <= n -> sat_si
 Proof. exact scon_parts_sat. Qed.
 Print Assumptions C08_spec_is_in_scon.
 
-Theorem C08_check_total : forall t v, exists r, check t v = r.
+Theorem C08_check_total : forall w t v, exists r, check w t v = r.
 Proof. exact check_total. Qed.
 Print Assumptions C08_check_total.
 
@@ -93,3 +107,23 @@ Print Assumptions C08_errmsg_bounded.
 Theorem C08_errmsg_untouched_without_buffer : forall maxlen vlen : Z, maxlen <= 0 -> ctfail_clamp maxlen vlen = None.
 Proof. exact errmsg_untouched. Qed.
 Print Assumptions C08_errmsg_untouched_without_buffer.
+
+(* the caller's buffer afterwards, for every buffer size >= 1 and every (NUL-free) message:
+   0 <= *errlen < size, errbuf[*errlen] = 0, the bytes before it are the message's first *errlen
+   bytes (none of them NUL: strlen(errbuf) = *errlen), and no other byte - inside the buffer or
+   beyond it - is written.  vsnprintf is taken by its contract. *)
+Theorem C08_errmsg_buffer_exact : forall (f : buffer) (maxlen : Z) (msg : list Z),
+  1 <= maxlen -> Forall (fun c => c <> 0) msg ->
+  exists errlen, snd (ctfail f maxlen msg) = Some errlen /\
+    0 <= errlen < maxlen /\ errlen = Z.min (zlength msg) (maxlen - 1) /\
+    fst (ctfail f maxlen msg) errlen = 0 /\
+    (forall j, 0 <= j < errlen -> fst (ctfail f maxlen msg) j = msg_at msg j /\
+                                  fst (ctfail f maxlen msg) j <> 0) /\
+    (forall j, j < 0 \/ errlen < j -> fst (ctfail f maxlen msg) j = f j).
+Proof. exact errmsg_buffer_exact. Qed.
+Print Assumptions C08_errmsg_buffer_exact.
+
+Theorem C08_errmsg_buffer_untouched_without_buffer : forall (f : buffer) (maxlen : Z) (msg : list Z),
+  maxlen <= 0 -> ctfail f maxlen msg = (f, None).
+Proof. exact errmsg_buffer_untouched. Qed.
+Print Assumptions C08_errmsg_buffer_untouched_without_buffer.
